@@ -550,6 +550,46 @@ func genProgram(r *rand.Rand) string {
 	return b.sb.String()
 }
 
+// ---------------------------------------------------------------- fixed enumeration: here-document opener sharing its line
+
+// hdocLinePrograms enumerates (opener flavour x following construct x joiner): a command with a here-document
+// opener whose line continues, after the joiner, with a later construct of every kind; then the body lines, the
+// delimiter, the body of a second here-document where the construct opens one, and a trailing command. Every
+// line-boundary prefix of each (cut after the opener line and after each body line) must parse or be incomplete.
+func hdocLinePrograms() []string {
+	type opener struct{ op, delim, tab string }
+	openers := []opener{
+		{"<<EOF", "EOF", ""}, {"<<-EOF", "EOF", "\t"}, {"<<'EOF'", "EOF", ""}, {"<<\"EOF\"", "EOF", ""}, {"<<\\EOF", "EOF", ""}, {"<<-'EOF'", "EOF", "\t"},
+	}
+	type constr struct{ src, extra string } // extra = lines needed after the first body (e.g. a second here-document)
+	constructs := []constr{
+		{"(grep body)", ""}, {"( grep body; x )", ""}, {"{ grep body; }", ""}, {"grep $(echo body)", ""}, {"grep `echo body`", ""},
+		{"[[ a == b ]]", ""}, {"(( 1 + 2 ))", ""}, {"f() { grep body; }", ""}, {"f() ( grep body )", ""}, {"function g { x; }", ""},
+		{"tr a b <<E2", "second\nE2\n"}, {"tr a b <<-'E2'", "\tsecond\n\tE2\n"}, {"(tr a b <<E2)", "second\nE2\n"},
+		{"if a; then b; fi", ""}, {"while a; do b; done", ""}, {"for i in 1 2; do b; done", ""}, {"case x in a) b ;; esac", ""},
+		{"! grep body", ""}, {"x=1 grep body", ""}, {"grep \"$(echo body)\"", ""}, {"grep ${x:-body}", ""}, {"grep $((1+2))", ""},
+		{"arr=(1 2)", ""}, {"declare y=1", ""}, {"let 1", ""}, {"echo 'q' \"d\"", ""}, {"( (a) )", ""}, {"{ (a); }", ""}, {"(a) >f", ""}, {"( a ) 2>&1 | b", ""},
+		{"$( (a) )", ""}, {"time (a)", ""}, {"coproc (a)", ""}, {"(a) && (b)", ""}, {"select i in 1; do b; done", ""}, {"until a; do b; done", ""},
+	}
+	joiners := []string{" | ", " && ", " || ", "; ", " & ", " |& ", " |\n"}
+	var out []string
+	for _, o := range openers {
+		for _, c := range constructs {
+			for _, j := range joiners {
+				var sb strings.Builder
+				sb.WriteString("cat " + o.op + j + c.src + "\n")
+				sb.WriteString(o.tab + "body $x\n" + o.tab + "( more `y`\n" + o.tab + o.delim + "\n")
+				sb.WriteString(c.extra)
+				sb.WriteString("echo after\n")
+				out = append(out, sb.String())
+				// the construct first, the opener later on the line
+				out = append(out, c.src+j+"cat "+o.op+"\n"+c.extra+o.tab+"body\n"+o.tab+o.delim+"\necho after\n")
+			}
+		}
+	}
+	return out
+}
+
 // ---------------------------------------------------------------- inputs
 
 func corpus(repo string) []string {
@@ -609,6 +649,9 @@ func main() {
 		}
 		for _, s := range corpus(repo) {
 			checkPrefixes(s, "corpus", &c, emitC)
+		}
+		for _, s := range hdocLinePrograms() {
+			checkPrefixes(s, "enum-hdoc-line", &c, emitC)
 		}
 		r := hx.Rand(o.Seed, 10)
 		for i := 0; i < o.N; i++ {
